@@ -329,7 +329,10 @@ pub fn run(rep: &mut Rep) {
         }
         let seed = rep.seed.wrapping_mul(1_000_003).wrapping_add(k);
         let mut rng = Rng::new(seed);
-        let mut w = World::boot(WorldCfg { seed, receive_max: Some(1 + (k % 3) as u16), max_packet: if k % 3 == 0 { Some(64) } else { None }, order: (k % 4) as u8, ..Default::default() });
+        // both counters start a few allocations below an encoding step (the subscription identifier's 1-/2-/3-/4-byte steps move
+        // the SUBSCRIBE's property section across its own 127 / 128 step when the call carries a 125-byte user property)
+        let sids = [1u32, 120, 125, 16_380, 2_097_148];
+        let mut w = World::boot(WorldCfg { seed, receive_max: Some(1 + (k % 3) as u16), max_packet: if k % 3 == 0 { Some(64) } else { None }, order: (k % 4) as u8, seed_ids: Some((1 + ((k * 3701) % 65000) as u16, sids[(k % 5) as usize])), ..Default::default() });
         // under the Maximum Packet Size every third subscribe / unsubscribe is refused too: its identifiers are consumed, never sent
         w.big_subs = k % 3 == 0;
         // ... and where no limit is announced every second subscribe carries three filters
